@@ -6,6 +6,7 @@
 //!   csx-emit emit   <outdir> <seed> <assign.json|-> <spec>...
 //!   csx-emit replay <spec> <assign.json> <out.json>
 //! specs: leaf | priv:N | pub:M:N | sort:n | lt:left:nlog | enf:bound:nlog | eq | privfull:N | pubfull:M:N
+mod cfgrun;
 mod ir;
 mod leafgen;
 mod poolrun;
@@ -829,6 +830,7 @@ fn main() {
         "poolrun" => poolrun::run(&args[2..]),
         "publishrun" => publishrun::run(&args[2..]),
         "tplrun" => tplrun::run(&args[2..]),
+        "cfgrun" => cfgrun::run(&args[2..]),
         _ => panic!("usage: csx-emit emit|replay ..."),
     }
 }
